@@ -176,6 +176,11 @@ def run_property(pid, tier, seed, extract, cfgs, here, known, t0, verbose=False,
     if verbose:
         for o in sorted(obs, key=lambda o: o['key']):
             print('  [%s] %s @ %s :: %s' % (o['status'], o['key'], o['site'], o['detail'][:300]))
+    nab = [o for o in obs if o['status'] == 'abstained']
+    if rc == 0 and nab:
+        # fail closed: an obligation the analysis could not decide is not a pass (no abstention exists on the reference tree)
+        print('UNDECIDED property=%s reason=%d obligation(s) could not be decided: %s' % (pid, len(nab), '; '.join(o['key'] for o in nab[:4])))
+        return 2
     return rc
 
 
